@@ -886,6 +886,23 @@ def check(ctx):
             files.append((raw, expected, facts, {'charset': cs, 'spelling': sp}))
     # the charsets served by the tool's own codecs, with catalogs written in their own letters
     own = [cs for cs in charsets(python=False) if cs not in css]
+    # multi-byte charsets in which 0x5C (backslash) is a trail byte: the escaped byte pair is then "\\x83" followed by "\\\\"
+    TRAIL5C = {'SHIFT_JIS': 'ソ表能予十', 'CP932': 'ソ表能予十', 'BIG5': '功許蓋', 'BIG5-HKSCS': '功許蓋', 'CP950': '功許蓋', 'GBK': '乗俓', 'GB18030': '乗俓'}
+    for cs in css:
+        letters = TRAIL5C.get(cs.upper())
+        if letters is None:
+            continue
+        for i in range(10 if quick else 150):
+            cat0 = gen_catalog(rng, 'X', False, extra_alpha=letters)
+            if not stateless_ok(text_of_catalog(cat0), cs):
+                skipped += 1
+                continue
+            cat = dict(cat0, charset_name=cs)
+            cat['entries'] = [dict(e) for e in cat0['entries']]
+            cat['entries'][0]['msgstr'] = cat0['entries'][0]['msgstr'].replace('charset=X', 'charset=' + cs)
+            sp = gen_spelling(rng)
+            raw, expected, facts, st = render(cat, cs, rng, sp)
+            files.append((raw, expected, facts, {'charset': cs, 'spelling': sp}))
     ctx.stats['charsets_own_codecs'] = own
     for cs in own:
         letters = OWN_LETTERS.get(cs.upper(), '')
